@@ -62,3 +62,22 @@ chk("C19", "exploration", "E1-refmodel",
     "Histories of lookups, reads, handle/watcher creation (also while a poll is in flight), service changes, polls, clock jumps around the expiry age and restarts from the last payload with changing declared sets and ages {0,-1s,1s,1h,30d}; start-up caches with stamps 0/stale/fresh/future. A name may disappear only at a poll and only if the model says undeclared, age configured, unread for longer than the age and never handed out; every payload's lastAccess must equal the model's last read; kept secrets must still be polled, dropped ones never again; stamps must survive a clean shutdown.",
     "Keeping a secret the rule allows to drop is not a violation ('only if'). Clock steps are whole seconds.",
     "DESIGN.md section 4, C19")
+
+ENGINES += [
+ {"name": "E5-sysfault", "path": "harness/internal/sysfault", "serves_properties": ["C04","C05","C13"], "kind_free_text": "ptrace system-call monitor and fault injector written in Go: logs every file-system call of a child performing ONE real operation (global order, fd tracking) and can kill the child before/after the k-th call, fail it with an errno without executing it, or turn a write into a real short write"},
+]
+chk("C04", "fault_enumeration", "E5-sysfault",
+    "ptrace system-call monitor + exhaustive fault enumeration (kill before/after, errno, real short write) over every file-system call of a real save",
+    "For every kind of mutating operation (database creation, first put, new version, activate, delete-version, delete, a 250 kB database; thorough: multi-megabyte databases and edge states) a child process performs the real call under a ptrace monitor. The fault-free trace must show: temp file in the live file's directory, written, fsync returned 0 after the last write and before the rename, live file never opened for writing. Then EVERY watched call is visited as kill-before, kill-after, a list of errnos, and for writes as real short writes (1, half, len-1) with and without a kill. After a kill the file must open to exactly the pre- or post-state, and after a restart in the same directory (leftovers kept) one more mutating call must leave exactly its post-state; when the call reports an error, the served state and a fresh Open of the file must be the pre-state, the live file untouched, and a retry must succeed and reach the post-state; when it reports success, file and served state must be the post-state.",
+    "Crash model = process kill at system-call boundaries and after short writes, not power loss; fsync is checked as an ordering fact. Errors are errnos the kernel can return for the call, delivered without executing it. Enumeration is exhaustive over each recorded trace.",
+    "DESIGN.md section 4, C04")
+chk("C13", "exploration", "E4-virtual-time",
+    "monitor cache + scripted service: restart-from-payload after every step, FileClient cross-check, mutational fuzzing of cache contents, parked-cache-write interleavings, and E5 crash/error enumeration of FileCache.Write",
+    "After every installing step (initial fetch, lookup, poll, shutdown; some with failing cache writes) the last payload must be one complete document of exactly the known names with current version+bytes; a store restarted from it with an unreachable service must serve the same; NewFileClient must agree on non-empty secrets. Thousands of documents mutated around the valid format (incl. JSON null, wrong types, duplicate/empty keys, case variants, every truncation of two documents) must never panic or fail a start, and must be used / ignored / either according to a three-way classification. Two overlapping installs with the first cache write parked must end with the newest state in the cache. FileCache.Write under ptrace: every system call as kill point, error point and short write: file is the old or the new document, 0600, never written in place.",
+    "The classification of 'well-formed' is deliberately three-valued (see DESIGN.md); crash model as C04.",
+    "DESIGN.md section 4, C13")
+chk("C20", "exploration", "E4-virtual-time",
+    "run-time generated struct types (reflect.StructOf) against a scripted service; expected field contents computed independently",
+    "Tens of thousands of generated struct shapes (1-8 fields in random order from 8 supported kinds, 7 unsupported kinds, 5 untagged kinds with sentinels, optional embedded struct; fields sharing a secret; 4 prefixes; failing fields: bad/trailing-garbage/double JSON, UnmarshalBinary errors), through StoreConfig.Structs and ParseFields+Apply. Checked: names requested == path.Join(prefix, tag) set, each field's content, untagged fields untouched, unsupported shapes rejected up front without requests or panic, a failing field reported while all others are filled, overwriting a populated []byte field changes neither the store nor sibling fields, Secret fields follow later polls.",
+    "Arguments stay within the documented precondition (non-nil pointers, exported tagged fields, clean names).",
+    "DESIGN.md section 4, C20")
